@@ -64,12 +64,15 @@ def model_inputs(ctx, m):
 
     def mem_read(a):
         return solve.model_val(m, z3.Select(ctx.mem0, z3.BitVecVal(a & ((1 << 64) - 1), 64)))
+    # values the model gives to what declared intrinsics write (consumed by replay.py through CState.havoc)
+    mem_read.havoc = {k: solve.model_val(m, v) for k, v in getattr(ctx, "havocs", {}).items()} if getattr(ctx, "intrinsic_havoc", False) else None
     return sc, mem_read
 
 
 def concrete_run(f, scalars, mem_read, max_steps=400, ssa=False, phi=False, endian="little"):
     """Run a function concretely with replay.py. Returns (CState, ending)."""
     st = replay.CState({k: (v[0], v[1]) for k, v in scalars.items()}, mem_read=mem_read, endian=endian, ssa=ssa)
+    st.havoc = getattr(mem_read, "havoc", None)
     try:
         ending = replay.run_cfg(st, f["cfg"], max_steps=max_steps, stop_at_exit=False, phi=phi)
     except replay.Fault as e:
